@@ -826,3 +826,85 @@ def ss_grow(progs):
                                    'grow() (the inline -> large transition, which allocates) is not conditioned on the inline vector being full: a set that '
                                    'never needs more than N elements can allocate', where=f['pname'], unit=prog.uname))
     return rr
+
+
+# ------------------------------------------------------------------------------ ITER-STATE
+def iter_state(progs):
+    rr = RuleResult('ITER-STATE', 'an iterator returned by a SmallSet modifier is built from the container that holds the elements at the return: not '
+                                  'from the inline vector once the set has grown, not from the large set while it is known to be inline')
+    for prog in progs:
+        for f in prog.amc_functions():
+            if not in_class(f, SS) or f.get('body') is None or f.get('kind') in ('ctor', 'dtor') or f.get('const') or f.get('lambda'):
+                continue
+            ret = f.get('ret', '')
+            if not ('Iterator' in ret or ret.rstrip().endswith('*') or 'pair<' in ret):
+                continue
+            body = f['body']
+            linit = A.local_inits(body)
+
+            def source(n, depth=0, st=frozenset()):
+                """'_vec' / '_set' / None: which container the iterator value comes from (in state st)."""
+                out = set()
+                n0 = A.strip(n)
+                # a ternary on isSmall(): only the branch selected in this state contributes
+                while isinstance(n0, dict) and n0.get('k') == 'construct' and len(n0.get('args', [])) == 1:
+                    n0 = A.strip(n0['args'][0])
+                if isinstance(n0, dict) and n0.get('k') == 'cond':
+                    cn, neg = unwrap_cond(n0.get('c'))
+                    if isinstance(cn, dict) and cn.get('k') == 'call' and A.callee(cn) == SS + '::isSmall':
+                        small = ('S', 'this') in st
+                        large = ('L', 'this') in st
+                        if small != large:
+                            take_a = small != neg
+                            return source(n0.get('a') if take_a else n0.get('b'), depth, st)
+                for x in walk(n):
+                    if x.get('k') == 'mem' and x.get('field') and x.get('name') in ('_vec', '_set') and x.get('clsq') == SS and A.root(x.get('base'), linit)[0] == 'this':
+                        out.add(x['name'])
+                    if x.get('k') == 'call' and A.cshort(x) in ('mfind_small', 'find_small'):
+                        out.add('_vec')
+                    if x.get('k') == 'call' and A.cshort(x) in ('insert_set',):
+                        out.add('_set')
+                    if x.get('k') == 'call' and A.cshort(x) in ('insert_small', 'insert', 'emplace') and x.get('amc') and A.callee(x).startswith(SS + '::'):
+                        out.add('(member)')      # forwards to a member that is checked itself
+                    if depth < 3 and x.get('k') == 'ref' and x.get('dk') == 'local' and linit.get(x.get('did')) and linit[x['did']][0] is not None:
+                        out |= source(linit[x['did']][0], depth + 1, st)
+                    # locals re-assigned later (elIt = it)
+                return out
+            sites = {}
+
+            class Cl(SSClient):
+                def is_event(self, n):
+                    return n.get('k') in ('call', 'bin')
+            cl = Cl(f, linit, lambda *a: None)
+            for did, (ini, ty) in linit.items():
+                if ty == 'bool' and ini is not None and A.strip(ini).get('k') == 'call' and A.callee(A.strip(ini)) == SS + '::isSmall':
+                    cl.bool_locals[did] = True
+            init = frozenset()
+            sn = short(f['name'])
+            if sn in ('insert_small',):
+                init = frozenset({('S', 'this')})
+            if sn == 'insert_set':
+                init = frozenset({('L', 'this')})
+            eng = Engine(cl)
+            o = eng.run(body, init, f.get('inits'))
+            for st, nid in o.returns:
+                rn = eng.nodes.get(nid)
+                if rn is None or rn.get('e') is None:
+                    continue
+                src = source(rn['e'], 0, st)
+                # forwarding to another SmallSet member: that member is checked itself
+                if not src or '(member)' in src:
+                    continue
+                bad = None
+                if '_vec' in src and '_set' not in src and ('L', 'this') in st:
+                    bad = 'built from the inline vector although the set is in its large state at this return'
+                if '_set' in src and '_vec' not in src and ('S', 'this') in st:
+                    bad = 'built from the large-state set although the set is inline at this return'
+                v = sites.setdefault(nid, [rn, None, src])
+                v[1] = v[1] or bad
+            for rn, bad, src in sites.values():
+                rr.instance('%s|%s' % (f['key'], rel(prog.site(f, rn))), {'function': f['pname'][:150], 'returned_iterator_from': sorted(src), 'ok': bad is None})
+                if bad:
+                    rr.add(Finding('ITER-STATE', '%s' % f['key'], prog.site(f, rn), 'the iterator returned here is ' + bad + ': it does not compare against end() '
+                                   'of the active container and designates an element that is gone', where=f['pname'], unit=prog.uname))
+    return rr
